@@ -30,8 +30,12 @@ Obs(path, mm) == IF path \in {"rows", "transpose"} THEN RowMajor(R, C, mm) ELSE 
 Ev(act, path, r, c, tok, post, obs) ==
     [act |-> act, path |-> path, r |-> r, c |-> c, tok |-> tok, post |-> post, obs |-> obs]
 
+\* the effect of each action on the stored entries alone (shared with the trace specification Trace_C06)
+ConstructM(vals) == m' = vals
+WriteM(r, c, t) == m' = [m EXCEPT ![Flat(R, r, c)] = t]
+
 Construct(path, vals) ==
-    /\ m' = vals
+    /\ ConstructM(vals)
     /\ hist' = Append(hist, Ev("ctor", path, 0, 0, "-", vals, vals))
     /\ UNCHANGED <<shape, m0>>
 FromDiagonal ==
@@ -50,7 +54,7 @@ Const(name) ==
        /\ UNCHANGED <<shape, m0>>
 Write(path, r, c, t) ==
     LET v == [m EXCEPT ![Flat(R, r, c)] = t] IN
-    /\ m' = v
+    /\ WriteM(r, c, t)
     /\ hist' = Append(hist, Ev("write", path, r, c, t, v, v))
     /\ UNCHANGED <<shape, m0>>
 Read(path) ==
